@@ -503,7 +503,7 @@ pub fn run(ctx: &Ctx) -> i32 {
     ctx.nontriv(tot);
     ctx.finish(
         "model_checking",
-        "(a) SchedulesDb::get_year_as_day_sch on all 1-, 2- and 3-period partitions of 365 days (1 + 364 + 66066) x weekly patterns {7 distinct days, 5+2, one day x7, 1+1+5} per period (all 4^k combinations; 4 fixed combinations for 3 periods in quick), the 12 calendar months and all 2^11 merges of adjacent months: day n takes slot n mod 7 of its period's week, and for every 16th case the history expand -> weekly schedules edited in place (also on a clone) -> expand; (b) BDL SCHEDULE-PD / WEEK-SCHEDULE-PD / DAY-SCHEDULE-PD documents through Data::new + Model::try_from: every end date 1..365, every pair (d,31 Dec), every triple (a,b,31 Dec) (every 11th in quick), all 3^7 weekly name lists, daily lists of 24 and of 1 value: period lengths from a calendar table, runs cover 7 days, 24 values, weekday alignment; (c) occupancy on 1..3 spaces x kind x inside x multiplier x all set partitions of schedule sharing x daily profiles {zero, one, morning, evening, 1e-6, negative} (4..6 spaces: star/chain): (the last of two or more loads definitions has lighting and equipment but no occupancy schedule): occupied hours = count of hours with any non-zero occupancy, mean load = area-weighted mean of schedule-averaged loads; all cases distinct by construction",
+        "(a) SchedulesDb::get_year_as_day_sch on all 1-, 2- and 3-period partitions of 365 days (1 + 364 + 66066) x weekly patterns {7 distinct days, 5+2, one day x7, 1+1+5} per period (all 4^k combinations; 4 fixed combinations for 3 periods in quick), the 12 calendar months and all 2^11 merges of adjacent months: day n takes slot n mod 7 of its period's week, and for every 16th case the history expand -> weekly schedules edited in place (also on a clone) -> expand; (b) BDL SCHEDULE-PD / WEEK-SCHEDULE-PD / DAY-SCHEDULE-PD documents through Data::new + Model::try_from: every end date 1..365, every pair (d,31 Dec), every triple (a,b,31 Dec) (every 11th in quick), all 3^7 weekly name lists, daily lists of 24 values (written with one to four decimals) and of 1 value (0.004): period lengths from a calendar table, runs cover 7 days, 24 values equal to the written ones, weekday alignment; (c) occupancy on 1..3 spaces x kind x inside x multiplier x all set partitions of schedule sharing x daily profiles {zero, one, morning, evening, 1e-6, negative} (4..6 spaces: star/chain): (the last of two or more loads definitions has lighting and equipment but no occupancy schedule): occupied hours = count of hours with any non-zero occupancy, mean load = area-weighted mean of schedule-averaged loads; all cases distinct by construction",
         true,
         json!({}),
     )
